@@ -22,7 +22,8 @@ def summary(src):
     defs = [n.name for n in m.body if isinstance(n, (ast.FunctionDef, ast.AsyncFunctionDef, ast.ClassDef))]
     cms = [[n.name, f.name] for n in m.body if isinstance(n, ast.ClassDef) for f in n.body if isinstance(f, (ast.FunctionDef, ast.AsyncFunctionDef))]
     assigns = sorted({x.id for x in parsing.iter_assignments(m)})
-    return defs, cms, assigns
+    cas = sorted({(n.name, x.id) for n in m.body if isinstance(n, ast.ClassDef) for x in parsing.iter_assignments(n)})
+    return defs, cms, assigns, [list(p) for p in cas]
 
 
 def capture_safe_preserve(src, preserve=frozenset()):
